@@ -346,6 +346,17 @@ v("C19", "tab-not-blank", ANNB, """var asciiSpace = [256]uint8{'\\t': 1, '\\n': 
 v("C19", "second-annotation-writer", ANNB, "	d.backend.Resolver = resolverName\n", "	d.backend.Resolver = resolverName\n	d.backend.CustomConfig = append(d.backend.CustomConfig, \"# resolver \"+resolverName)\n", "C19.one-writer")
 
 bad = 0
+# ---- round-3 generalisation rules
+v("C14", "gwclass-a2-del-new-object", WATCH, "w.ch.GatewayClassesA2Del = append(w.ch.GatewayClassesA2Del, oldgwcls)", "w.ch.GatewayClassesA2Del = append(w.ch.GatewayClassesA2Del, newgwcls)", "C14.reclass")
+v("C14", "gw-a2-add-needs-old-valid", WATCH, "				} else if !oldValid && newValid {\n					w.ch.GatewaysA2Add", "				} else if oldValid && newValid {\n					w.ch.GatewaysA2Add", "C14.reclass")
+v("C14", "gw-a2-no-del", WATCH, "				} else if oldValid && !newValid {\n					w.ch.GatewaysA2Del = append(w.ch.GatewaysA2Del, oldgw)\n				}", "				}", "C14.reclass")
+v("C03", "terminating-ignores-namespace", CACHE, "	if svc.GetNamespace() != pod.GetNamespace() {\n		return false\n	}\n	for selectorLabel", "	for selectorLabel", "C03.endpoints-key")
+v("C03", "terminating-nodelost", CACHE, 'pod.DeletionTimestamp != nil && pod.Status.Reason != "NodeLost" && pod.Status.PodIP != ""', 'pod.DeletionTimestamp != nil && pod.Status.PodIP != ""', "C03.endpoints-key")
+v("C03", "terminating-selector-any", CACHE, "!present || selectorValue != labelValue", "present && selectorValue != labelValue", "C03.endpoints-key")
+v("C01", "scope-changed-endpoints-all", ING, "func (c *converter) syncChangedEndpoints() {\n	for _, backend := range c.haproxy.Backends().ItemsAdd() {", "func (c *converter) syncChangedEndpoints() {\n	for _, backend := range c.haproxy.Backends().Items() {", "C01.collection-scope")
+v("C05", "scope-backend-maps-all", CFG, "	for _, backend := range c.backends.ItemsAdd() {", "	for _, backend := range c.backends.Items() {", "C05.collection-scope")
+v("C05", "scope-alignslots-changed-only", DYN, "	for _, back := range backends.Items() {", "	for _, back := range backends.ItemsAdd() {", "C05.collection-scope")
+
 for x in V:
     d = os.path.join(ROOT, "variants", x["property"])
     os.makedirs(d, exist_ok=True)
